@@ -37,10 +37,13 @@ TEXT = {
         text="Theorems no_crash (any sequence of listen / close any number of times / send / read / wake / subscribe / unsubscribe / "
              "dial / end-of-connection never panics), no_leak (every bound service name belongs to an open socket, by an inductive "
              "invariant, for every guard setting), all_closed_nothing_bound, conn_end_releases_socket, and witness theorems of the three "
-             "repaired defects, over a model of the socket bookkeeping. Tie: regenerated facts (what a deliverer does on cancellation, "
+             "repaired defects, over a model of the socket bookkeeping; listener_close_never_wedges (the two closes of Listener.Close and "
+             "the two locks they take, under every schedule of the caller and the transport's read loop; witness of the dead-locking "
+             "order). Tie: regenerated facts (what a deliverer does on cancellation, the order of the two closes, "
              "ReadFrom's selects, the checked advertisement withdrawal, Close's steps, the dial clean-up goroutine) + scripts run on a "
              "real node in child processes: parked deliverers, closes repeated and interleaved, subscriptions and notices, dials to a "
-             "local listener ended in three ways, pings, Shutdown; observed: survival, names still bound, ephemeral names, goroutines "
+             "local listener ended in three ways, a second stream listener closed by the application with and without a live connection, "
+             "pings, Shutdown; observed: survival, names still bound, ephemeral names, goroutines "
              "left over (by creating function), background activity after Shutdown.",
         note=BASE_NOTE + "Goroutine counts are measured (settling time up to 2 s), not proved; quic-go is trusted (a lock-order "
              "inversion inside the vendored fork when a listener is closed while its transport fails is avoided by the harness and "
